@@ -169,8 +169,6 @@ type c38Run struct {
 	sawClosed      bool
 	reopenAttempts int
 	reopened       int
-	skippedKnown   int
-	excludeKnown   bool
 	// born: controller channel key -> id of the CLOSED active channel it was created to replace ("" if none)
 	born map[string]string
 }
@@ -381,7 +379,8 @@ func (r *c38Run) check(s sub) {
 	}
 }
 
-// sigInFlight is the signature of the recorded finding: OnChanOpenAck (controller) and
+// sigInFlight is the signature of the finding repaired by the fix: commit (controller OnChanOpenAck now repeats the
+// reopening checks); it stays a separate signature so a regression is recognisable: OnChanOpenAck (controller) and
 // OnChanOpenConfirm (host) do not compare a channel with the CLOSED active channel it
 // replaces, so a handshake that was started before that channel closed (and therefore never
 // passed the reopening checks of OnChanOpenInit) can change ordering and metadata.
@@ -520,25 +519,6 @@ func (r *c38Run) opTry(op c38Op) (sim.TxResult, string) {
 	}
 	id, _ := ibctesting.ParseChannelIDFromEvents(res.Events)
 	return res, id
-}
-
-// knownInFlight reports whether acknowledging controller channel c would make a channel
-// active whose handshake was started BEFORE the current (now CLOSED) active channel of its
-// (connection, port) closed and whose ordering or metadata differ from that channel.
-func (r *c38Run) knownInFlight(c chanObs) bool {
-	if c.State != channeltypes.INIT {
-		return false
-	}
-	id, ok := r.obs[ctrl].ctrlActive[c.Conn+"|"+c.Port]
-	if !ok || id == c.ID {
-		return false
-	}
-	a := r.obs[ctrl].chans[c.Port+"/"+id]
-	if a.State != channeltypes.CLOSED || r.born[c.key()] == id {
-		return false
-	}
-	eq, _, _ := sameMetadata(a.Version, c.Version)
-	return a.Order != c.Order || !eq
 }
 
 func (r *c38Run) opAck(op c38Op) sim.TxResult {
@@ -687,15 +667,6 @@ func (r *c38Run) exec(op c38Op) {
 	case "try":
 		r.opTry(op)
 	case "ack":
-		hs := r.hostChans()
-		if len(hs) > 0 && r.excludeKnown {
-			h := hs[op.Ch%len(hs)]
-			if c, ok := r.obs[ctrl].chans[h.CPPort+"/"+h.CPChan]; ok && r.knownInFlight(c) {
-				r.skippedKnown++
-				r.rec.Add("excluded_known", 1)
-				return
-			}
-		}
 		r.opAck(op)
 	case "confirm":
 		r.opConfirm(op)
@@ -746,10 +717,10 @@ func (r *c38Run) exec(op c38Op) {
 }
 
 
-func runC38(outer *testing.T, excludeKnown bool) func(t rapid.TB, c c38Case, rec *vx.Case) {
+func runC38(outer *testing.T) func(t rapid.TB, c c38Case, rec *vx.Case) {
 	return func(t rapid.TB, c c38Case, rec *vx.Case) {
 		e := newEnv(outer, 2)
-		r := &c38Run{t: t, rec: rec, e: e, excludeKnown: excludeKnown, born: map[string]string{}}
+		r := &c38Run{t: t, rec: rec, e: e, born: map[string]string{}}
 		r.obs = [2]chainObs{e.observe(0), e.observe(1)}
 		for i, op := range c.Ops {
 			r.step = i
@@ -879,7 +850,7 @@ func TestC38(t *testing.T) {
 			"three templates (open-close-reopen, two handshakes in flight, free form); non-trivial = a controller channel reached CLOSED and a handshake start (register / init) was attempted for a (connection, port) whose active channel is CLOSED; distinct by full history",
 		MinNTFrac: 0.3,
 		Gen:       genC38,
-		Run:       runC38(t, true),
+		Run:       runC38(t),
 	})
 }
 
@@ -900,7 +871,7 @@ func c38InFlightHistory() c38Case {
 }
 
 func TestC38InFlight(t *testing.T) {
-	run, done := runC38(t, false), false
+	run, done := runC38(t), false
 	vx.Check(t, vx.Prop[c38Case]{
 		ID:   "C38",
 		Rule: "deterministic history: two handshakes in flight for one owner with different ordering and encoding; the second is acknowledged after the first channel closed",
